@@ -313,6 +313,9 @@ func bindHandle(in []byte) []byte {
 		if o["ue"] == true {
 			ft["o_ue"] = true
 		}
+		if keySpelling > 0 {
+			ft["esc_keys"] = true
+		}
 		return bindBad{Kind: kind, Type: tsig, Doc: jsig, Text: text, Old: oldName, Opts: osig, Want: want, Got: got, Feat: ft,
 			Sig: kind + "|" + tsig + "|" + jsig}
 	}
@@ -327,8 +330,20 @@ func bindHandle(in []byte) []byte {
 	if intOf(c["seed"])%2 == 1 {
 		ws = 1 + (intOf(c["id"])+intOf(c["seed"]))%3
 	}
-	for _, w := range []int{0, ws}[:1+btoi(ws > 0)] {
+	// text plans: (blank plan, key spelling); a document with object keys is also decoded with its keys spelled by escapes
+	type textPlan struct{ ws, esc int }
+	plans := []textPlan{{0, 0}}
+	if ws > 0 {
+		plans = append(plans, textPlan{ws, 0})
+	}
+	if strings.Contains(docText(J, 0), `":`) {
+		plans = append(plans, textPlan{ws, 1 + (intOf(c["id"])+intOf(c["seed"]))%2})
+	}
+	defer func() { keySpelling = 0 }()
+	for _, pl := range plans {
+		w := pl.ws
 		buildWS = w
+		keySpelling = pl.esc
 		text := docText(J, w)
 		// the oracle
 		ps := oldV()
@@ -436,6 +451,7 @@ func bindHandle(in []byte) []byte {
 			}
 		}
 	}
+	keySpelling = 0
 	if c["detail"] == true {
 		d := mk("detail", docText(J, 0), fmt.Sprintf("hard=%v soft=%v", hard, soft), strings.Join(od.log, " ; "))
 		res.Detail = &d
